@@ -11,6 +11,7 @@ EXPLANATION = (
     "(R-C16-wake) after appending the will, handle_last_will drains every parked waiter and reschedules it (shared with R-C01-wake); "
     "(R-C16-fields) the Publish / PublishProperties built in handle_last_will take each field from the like-meaning field of the registered will and its properties; "
     "(R-C16-key) the keys agree: every link's Incoming and Outgoing buffers are created with Connection::new(..).client_id (tenant prefix included), and the will table is keyed by those client_id fields; "
+    "the previous connection's will decider is signalled only after RemoteLink::new succeeded, a will is stored only on paths that register the connection, and every admitted connect must decide the will its predecessor left under the client id (today it does not: known finding F46); "
     "RemoteLink::new has no error exit after LinkBuilder::build registered the connection unless Event::Disconnect is sent first; "
     "(R-C16-handover) in RemoteLink::start every path from filling the buffer shared with the router (push_back through the LinkTx::buffer guard, Network::readv) to the end of the link passes LinkTx::notify; "
     "(R-C16-registry) in broker::remote nothing that can panic runs while the shared will-decider table is locked (region between each MutexGuard's definition and its drop), and the decider a task registers is removed or waited on on every path to the end of the task; "
